@@ -13,8 +13,20 @@ import numpy as np
 from iOpt.evolvent.evolvent import Evolvent
 
 
-def unit_evolvent(N, m):
-    return Evolvent(np.zeros(N), np.ones(N), N, m)
+def unit_evolvent(N, m, rebound=None):
+    """The evolvent on the unit box.  With rebound = a numpy Generator the object first lives on another box, answers a few
+    image and inverse-image queries there and is then moved to the unit box with SetBounds ("for every box" also means the box
+    in force now): the structural checks of C07/C08 must hold on such an object exactly as on a fresh one."""
+    if rebound is None:
+        return Evolvent(np.zeros(N), np.ones(N), N, m)
+    lo = rebound.uniform(-50, 50, N)
+    hi = lo + 10 ** rebound.uniform(-2, 2, N)
+    ev = Evolvent(lo, hi, N, m)
+    for q in range(3):
+        ev.GetImage(float(rebound.random()))
+        ev.GetInverseImage(lo + rebound.random(N) * (hi - lo))
+    ev.SetBounds(np.zeros(N), np.ones(N))
+    return ev
 
 
 def cell_of_unit_image(y, m):
